@@ -8,7 +8,7 @@
    oracle's answer to the recorded query).  Numbering follows DESIGN.md §2 C07. *)
 From Coq Require Import ZArith List Bool Reals Floats.
 From ADV Require Import Base.Num C07.Model C07.Spec C07.Proofs C07.ProofsRprop C07.ProofsBfgs
-  C07.ProofsDense C07.Refuted.
+  C07.ProofsDense C07.ProofsAdam C07.Refuted.
 Import ListNotations.
 Open Scope Z_scope.
 
@@ -34,6 +34,11 @@ Theorem bfgs_stop_condition : forall (P : bf_params) fuel x0 x tr,
   bfgs NM K F HK CS P fuel x0 = (Converged x, tr) ->
   wf F HK CS tr /\ stop_ok NM (bf_eps P) tr x.
 Proof. exact (bfgs_stop_l NM K F HK CS). Qed.
+
+Theorem adam_stop_condition : forall (P : ad_params) fuel x0 x tr,
+  adam_dense NM F HK CS P fuel x0 = (Converged x, tr) ->
+  wf F HK CS tr /\ stop_ok NM (ad_eps P) tr x.
+Proof. exact (adam_stop_l NM F HK CS). Qed.
 
 (* line search: the strong Wolfe conditions (constants c1, c2 of the code, literal
    comparisons of the code) hold between the logged answers for 0 and for alpha *)
@@ -66,6 +71,9 @@ Proof. exact (gd_hooks_l NM F HK CS). Qed.
 Theorem bfgs_hook_arguments : forall (P : bf_params) fuel x0,
   hooks_ok (snd (bfgs NM K F HK CS P fuel x0)).
 Proof. exact (bfgs_hooks_l NM K F HK CS). Qed.
+Theorem adam_hook_arguments : forall (P : ad_params) fuel x0,
+  hooks_ok (snd (adam_dense NM F HK CS P fuel x0)).
+Proof. exact (adam_hooks_l NM F HK CS). Qed.
 Theorem line_search_hook_arguments : forall hk cs fuel alpha1 maxEval,
   ls_hooks_ok NM ls_scalar_query (snd (line_search_run NM K F HK CS hk cs fuel alpha1 maxEval)).
 Proof. exact (ls_hooks_l NM K F HK CS). Qed.
@@ -82,6 +90,11 @@ Proof. exact (rprop_cons_l NM F HK CS). Qed.
 Theorem rprop_dense_constraints : forall (P : rp_params) fuel x0,
   point_accepted (rp_cons P) (snd (rprop_dense NM F HK CS P fuel x0)) (fst (rprop_dense NM F HK CS P fuel x0)).
 Proof. exact (rprop_dense_cons_l NM F HK CS). Qed.
+(* adam: holds for returns through the stop test or the hook; the return at the iteration
+   cap is NOT covered (adam_cap_constraints_refuted) *)
+Theorem adam_constraints_partial : forall (P : ad_params) fuel x0,
+  ad_point_accepted P (snd (adam_dense NM F HK CS P fuel x0)) (fst (adam_dense NM F HK CS P fuel x0)).
+Proof. exact (adam_cons_partial_l NM F HK CS). Qed.
 Theorem constraints_reevaluated : forall (c : list A -> bool) tr x,
   (forall k y, CS k y = c y) -> wf F HK CS tr -> accepted true tr x -> c x = true.
 Proof. exact (accepted_pure F HK CS). Qed.
@@ -96,6 +109,9 @@ Proof. exact (rprop_dense_cap_l NM F HK CS). Qed.
 Theorem line_search_evaluation_cap : forall hk cs fuel alpha1 maxEval,
   (n_evals (snd (line_search_run NM K F HK CS hk cs fuel alpha1 maxEval)) <= Z.to_nat maxEval + 2)%nat.
 Proof. exact (ls_cap_l NM K F HK CS). Qed.
+Theorem adam_evaluation_cap : forall (P : ad_params) fuel x0,
+  (n_evals (snd (adam_dense NM F HK CS P fuel x0)) <= Z.to_nat (ad_maxit P))%nat.
+Proof. exact (adam_cap_l NM F HK CS). Qed.
 Theorem bfgs_evaluation_cap : forall (P : bf_params) fuel x0,
   (n_evals (snd (bfgs NM K F HK CS P fuel x0)) <= 1 + 103 * Z.to_nat (bf_maxit P))%nat.
 Proof. exact (bfgs_eval_cap NM K F HK CS). Qed.
@@ -128,6 +144,11 @@ Theorem linesearch_constraints_refuted :
   exists al tr, line_search_run NumF KF (fun _ => phi) noHK near1 false true 100 1%float 20%Z = (LSConv al, tr) /\
      near1 0%nat [al] = false /\ submitted_and_accepted tr [al] = false.
 Proof. exact Refuted.linesearch_constraints_refuted. Qed.
+
+Theorem adam_cap_constraints_refuted :
+  exists x tr, adam_dense NumF Fsq noHK ge1 P4 10 [1%float] = (Cap x, tr) /\
+     ge1 0%nat x = false /\ submitted_and_accepted tr x = false.
+Proof. exact Refuted.adam_cap_constraints_refuted. Qed.
 
 (* the hypotheses are satisfiable: a run that does converge, with honest hooks *)
 Example rprop_converges_on_square :
